@@ -3,9 +3,8 @@ Property C18 — OfflineDependencyProvider: last-write-wins store, newest versio
 
 Theorems about the model `PubgrubModel/Offline.lean`, for every sequence of `add_dependencies`
 calls (`Offline.run ops`), refined to the abstract map "the last call for (p, v) wins".
-`versions(p)` ascending is the ordering of the real `BTreeMap` (not modelled: `versionsOf` is
-unordered, duplicate-free and complete; the order is checked by the correspondence), `packages()` is
-a hash-map iteration (compared as a set).
+`versions(p)` is strictly ascending and complete (`C18_versions_ascending`: the model keeps the per-package
+map sorted, as the real `BTreeMap` does), `packages()` is a hash-map iteration (compared as a set).
 -/
 import PubgrubProofs.OfflineLaws
 import PubgrubProofs.ProviderLaws
